@@ -458,7 +458,7 @@ func runSymbolFields(p *Prog, r *Report) {
 		})
 	}
 	r.Counts["E10.symbol-literals"] = n
-	r.ExpectMin("E10.symbol-literals", n, 4)
+	r.ExpectMin("E10.symbol-literals", n, 3)
 
 	// getters
 	ng := 0
@@ -500,7 +500,7 @@ func runSymbolFields(p *Prog, r *Report) {
 		}
 	}
 	r.Counts["E10.getters"] = ng
-	r.ExpectMin("E10.getters", ng, 11)
+	r.ExpectMin("E10.getters", ng, 7)
 	r.Clauses = append(r.Clauses, "E10 every symbol literal takes name, kind, range and nested symbols from the syntax item of its own loop iteration, and the accessors return those fields")
 }
 
